@@ -38,9 +38,21 @@ Don't use for: optimization (MILP), continuous variables (simplex/gradient).
 from collections.abc import Sequence
 from heapq import heapify, heappop, heappush
 
+import os
+
 from solvor.types import Result, Status
 
 __all__ = ["solve_sat"]
+
+# Verification hook (inert unless SOLVOR_VERIF=1 and a sink is registered)
+_VERIF = os.environ.get("SOLVOR_VERIF") == "1"
+_verif_sink = None
+
+
+def _verif_set_sink(fn):
+    global _verif_sink
+    _verif_sink = fn if _VERIF else None
+
 
 UNDEF = 2  # Variable state: 0=False, 1=True, 2=Undefined
 
@@ -370,6 +382,8 @@ def solve_sat(
                 keep.append(clause)
                 keep_lbd.append(lbd_scores[orig_idx])
 
+        if _verif_sink is not None:
+            _verif_sink("reduce_db", len(learned), len(keep))
         learned, lbd_scores = keep, keep_lbd
 
         for v in range(1, n_vars + 1):
@@ -443,6 +457,8 @@ def solve_sat(
             clause_idx = len(clauses) + len(learned)
             learned.append(learned_clause)
             lbd_scores.append(lbd)
+            if _verif_sink is not None:
+                _verif_sink("learned", list(learned_clause), False, bt_level)
 
             if len(learned_clause) == 2:
                 big.add(learned_clause[0], learned_clause[1], clause_idx)
@@ -457,6 +473,8 @@ def solve_sat(
 
             if conflicts_since_restart >= next_restart:
                 if restarts >= max_restarts:
+                    if _verif_sink is not None:
+                        _verif_sink("max_iter", conflicts, restarts, max_conflicts, max_restarts)
                     if all_solutions:
                         return Result(
                             all_solutions[0],
@@ -469,6 +487,8 @@ def solve_sat(
                     return Result(None, 0, decisions, propagations, Status.MAX_ITER)
 
                 restarts += 1
+                if _verif_sink is not None:
+                    _verif_sink("restart", restarts, len(learned))
                 luby_idx += 1
                 next_restart = luby_factor * luby(luby_idx)
                 conflicts_since_restart = 0
@@ -494,6 +514,8 @@ def solve_sat(
             clause_idx = len(clauses) + len(learned)
             learned.append(blocking)
             lbd_scores.append(n_vars)
+            if _verif_sink is not None:
+                _verif_sink("learned", list(blocking), True, 0)
 
             if len(blocking) >= 2:
                 add_watch(blocking[0], clause_idx)
@@ -513,6 +535,8 @@ def solve_sat(
         conflict = propagate()
 
         if conflicts >= max_conflicts:
+            if _verif_sink is not None:
+                _verif_sink("max_iter", conflicts, restarts, max_conflicts, max_restarts)
             if all_solutions:
                 return Result(
                     all_solutions[0],
